@@ -1,6 +1,7 @@
 import HumphreyModel.Driver.Util
 import HumphreyModel.Driver.C02
 import HumphreyModel.Driver.C05
+import HumphreyModel.Driver.C07
 
 /-!
 Line-protocol driver. Each input line: `fn <TAB> arg… <TAB> impl-output`.
@@ -11,7 +12,7 @@ One `dispatch` per property lives in `HumphreyModel/Driver/Cxx.lean`.
 open Humphrey Humphrey.Driver
 
 def dispatchers : List (String → List String → String → Option Verdict) :=
-  [ C02.dispatch, C05.dispatch ]
+  [ C02.dispatch, C05.dispatch, C07.dispatch ]
 
 def dispatch (fn : String) (args : List String) (impl : String) : Verdict :=
   match dispatchers.findSome? (fun d => d fn args impl) with
@@ -30,7 +31,9 @@ def processLine (line : String) : String :=
       let specBad := v.spec == some false
       if v.model == impl && !specBad then "="
       else
-        let s := match v.spec with | none => "na" | some true => "ok" | some false => "bad"
+        let s := match v.spec with
+          | none => "na" | some true => "ok"
+          | some false => if v.reason.isEmpty then "bad" else "bad:" ++ v.reason
         s!"D\t{v.model}\t{s}"
 
 partial def loop (hin : IO.FS.Stream) (hout : IO.FS.Stream) : IO Unit := do
